@@ -792,9 +792,10 @@ theorem encodes_cert {pb : Problem} (hw : WellFormed pb) {H W : Nat} (hH : pb.he
       (List.replicate (3 * Frame.numVars H W) .bool ++
         List.replicate ((H + 1) * (W + 1)) (.int 0 (((H + 1 : Nat) : Int) * ((W + 1 : Nat) : Int) - 1)) ++
         List.replicate ((H + 1) * W) (.int 0 (maxNS pb + 1)) ++ List.replicate (H * (W + 1)) (.int 0 (maxNS pb + 1))) := by
-    simp only [progE, declsE, List.append_assoc]
-    rw [← List.append_assoc, ← List.replicate_add]
-    congr 2; omega
+    have e : List.replicate (4 * Frame.numVars H W) VarDecl.bool
+        = List.replicate (Frame.numVars H W) .bool ++ List.replicate (3 * Frame.numVars H W) .bool := by
+      rw [← List.replicate_add]; congr 1; omega
+    simp only [progE, declsE, e, List.append_assoc]
   have hkv : ∀ σ : Asg, (progE pb H W).keyVals σ = (segAnswer H W (onσ H W σ)).map some := by
     intro σ
     unfold PuzzleProg.keyVals
